@@ -119,6 +119,14 @@ type Model struct {
 	seen      map[string]bool // every version ever observed / supplied
 	mineN     int
 	history   map[string][]string // per key: all versions ever known (for stale selectors when key absent)
+	// the caller's expiry variables: writes that carry the same logical expiry share ONE *time.Time (as a caller
+	// does who computes the instant once); the store must neither change it nor depend on its identity
+	ats map[[2]int64]*callerTime
+}
+
+type callerTime struct {
+	p    *time.Time
+	orig time.Time
 }
 
 type Vio struct {
@@ -185,6 +193,32 @@ func (m *Model) StateKey() string {
 }
 
 func (m *Model) expiry(exp int) (has bool, half int64, at *time.Time) {
+	has, half, at = m.expiryFresh(exp)
+	if at == nil {
+		return
+	}
+	if m.ats == nil {
+		m.ats = map[[2]int64]*callerTime{}
+	}
+	k := [2]int64{int64(exp), m.clockHalf}
+	if c, ok := m.ats[k]; ok {
+		return has, half, c.p
+	}
+	m.ats[k] = &callerTime{p: at, orig: *at}
+	return
+}
+
+// callerTimesIntact reports a caller's expiry variable that no longer holds the instant the caller put there.
+func (m *Model) callerTimesIntact() *Vio {
+	for k, c := range m.ats {
+		if !c.p.Equal(c.orig) {
+			return &Vio{m.be.Name + "/caller-expiry-modified", fmt.Sprintf("the time.Time a caller handed over as ExpiresAt (selector %d) was %v and is %v now: the store wrote into the caller's variable (other records written with the same pointer change with it)", k[0], c.orig, *c.p)}
+		}
+	}
+	return nil
+}
+
+func (m *Model) expiryFresh(exp int) (has bool, half int64, at *time.Time) {
 	if exp == 0 {
 		return false, 0, nil
 	}
@@ -386,6 +420,10 @@ func (m *Model) Step(o Op) (vio *Vio) {
 	vio = m.step(o)
 	if vio != nil {
 		return vio
+	}
+	if v := m.callerTimesIntact(); v != nil {
+		v.What = fmt.Sprintf("after %s: %s", o, v.What)
+		return v
 	}
 	if m.be.Tick != nil {
 		past := PastExp(o.Exp)
